@@ -41,8 +41,10 @@ def one(args):
     W = tempfile.mkdtemp(prefix="c19", dir=os.environ.get("VERIF_SCRATCH"))
     cwd = os.getcwd()
     try:
-        names = ["inc%d.asm" % j for j in range(6)]
+        # names that contain each other, and a sub-directory (include paths are relative to the working directory)
+        names = ["data.asm", "a.asm", "ta.asm", "sub/defs.asm", "defs.asm", "x1.asm", "1.asm", "inc.asm", "c.asm", "sub/a.asm"]
         rnd.shuffle(names)
+        os.makedirs(os.path.join(W, "sub"), exist_ok=True)
         t = {"id": k, "D": 0, "absref": [], "moved": [], "labels": [], "ren": []}
         if mode == "tree":
             main, files = split_tree(rnd, lines, 3, names)
@@ -59,7 +61,7 @@ def one(args):
             t["kind"] = "include-reject"
         else:    # cycles of length 1..3
             n = rnd.choice([1, 2, 3])
-            cyc = ["c%d.asm" % j for j in range(n)]
+            cyc = rnd.sample(["cyc.asm", "c.asm", "yc.asm", "sub/c.asm"], n)
             files = {cyc[j]: [" NOP \n", " INCLUDE %s\n" % cyc[(j + 1) % n]] for j in range(n)}
             main = lines[:1] + [" INCLUDE %s\n" % cyc[0]] + lines[1:]
             t["kind"] = "include-reject"
